@@ -112,6 +112,8 @@ Report ==
         w    == Walk(Rec.steps, 1, <<init>>, 1)
     IN /\ Bump(1) /\ Add(2, Len(Rec.steps)) /\ Add(3, NUndoRedo(Rec.steps))
        /\ (("C02" \in Check) => (w = 0 \/ PrintT(<<"FAIL", "C02", i, w>>)))
+       \* C01 along sessions: every undo() / redo() is the inversion of an edit made in a reachable state
+       /\ (("C01" \in Check) => (w = 0 \/ PrintT(<<"FAIL", "C01", i, w>>)))
        /\ \A name \in Check \cap {"C03", "C04", "C05", "C06", "C07", "C08", "C09"} :
              LET b == FirstBad(Rec.steps, 1, name) IN (b = 0 \/ PrintT(<<"FAIL", name, i, b>>))
        /\ (("C20" \in Check) =>
